@@ -7,7 +7,7 @@ EXPLANATION = ("CrossHair executes the real delta classes, ScanTotals, ScanResul
 
 
 def run(ctx):
-    ctx.functions += ["LanguageTotalsDelta.*", "ScanTotalsDelta.*", "ScanTotals.languages_totals/total_*", "ScanResultTable.__init__/_populate", "format_markdown.print_totals/_print_totals",
+    ctx.functions += ["LanguageTotalsDelta.*", "ScanTotalsDelta.*", "ScanTotals.languages_totals/total_*", "ScanResultTable.__init__/_populate", "format_text.print_report/print_totals", "format_markdown.print_report/print_totals/_print_totals", "commands.report.report_command", "commands.findings.findings_command", "utils.read_report/make_report_path",
                       "format_text.print_findings", "format_markdown.print_findings/_print_findings_with(out)_repository", "Report.all_report_units_sorted_by_length_asc"]
     ctx.bounds = {"figures": "current/previous value of two languages for one column at a time: every non-negative int (unbounded)", "language sets": "same / one added / one removed / single language / no comparison report / comparison report without any language",
                   "findings": "0..25 findings, full flag, with/without repository"}
@@ -23,4 +23,5 @@ def run(ctx):
                 continue
             jobs.append(Job("c18.py", "h_overview", {"column": c, "scenario": s}, T, 30, tag=f"{c}/{s}", meta={"sigtag": f"overview:{s}"}))
     jobs.append(Job("c18.py", "h_findings", {}, T, 30, tag="n<=25"))
+    jobs.append(Job("c18.py", "h_commands", {}, T, 30, tag="report_command / findings_command wiring"))
     ctx.run_xh(jobs)
